@@ -27,6 +27,10 @@ pub struct Case {
     /// (0 = PUT /vmAgentLog, 1 = POST /machine/?comp=telemetrydata, 2 = GET, 3 = ordinary POST; 20 bytes of body where there is one)
     #[serde(default)]
     pub prelude: Option<u8>,
+    /// chunked requests only: the head ALSO declares a Content-Length (value, written before the Transfer-Encoding line?) -
+    /// hyper reads such a body as chunked; whatever the declared number says, a body above the limit is refused and not relayed
+    #[serde(default)]
+    pub also_declared: Option<(u32, bool)>,
 }
 
 fn target_class() -> impl Strategy<Value = (String, String)> {
@@ -71,8 +75,9 @@ pub fn strategy(big_weight: u32) -> impl Strategy<Value = Case> {
         any::<bool>(),
         any::<bool>(),
         prop::option::weighted(0.35, 0u8..4),
+        prop::option::weighted(0.2, (prop_oneof![Just(0u32), Just(5u32), Just(LOW as u32), Just(LOW as u32 - 1), 1u32..200_000], prop::bool::weighted(0.7))),
     )
-        .prop_map(|((method, target), (len, big), pattern, chunked, uid_sel, helper_sel, key, telemetry, prelude)| {
+        .prop_map(|((method, target), (len, big), pattern, chunked, uid_sel, helper_sel, key, telemetry, prelude, also_declared)| {
             // the 100 MiB class only makes sense on the exempt pairs
             let (method, target) = if big {
                 if telemetry { ("POST".to_string(), "/machine/?comp=telemetrydata".to_string()) } else { ("PUT".to_string(), "/vmAgentLog".to_string()) }
@@ -81,11 +86,11 @@ pub fn strategy(big_weight: u32) -> impl Strategy<Value = Case> {
             };
             // the 100 MiB class: two thirds undeclared (chunked), where the limit is only found while the body arrives
             let chunked = if big { if pattern % 3 != 0 { Some(vec![1 << 20]) } else { None } } else { chunked };
-            Case { rec: Rec { uid_sel, helper_sel, is_root: uid_sel == 0, dest: DestSel::Imds }, method, target, len, pattern, chunked, key, prelude: if big { None } else { prelude } }
+            Case { rec: Rec { uid_sel, helper_sel, is_root: uid_sel == 0, dest: DestSel::Imds }, method, target, len, pattern, chunked, key, prelude: if big { None } else { prelude }, also_declared: if big { None } else { also_declared } }
         })
 }
 
-pub const RULE: &str = "generator: authorised attributed requests to IMDS; method/URL class in {non-exempt, PUT /vmAgentLog and POST /machine/?comp=telemetrydata in random letter case, near misses of the exemption (wrong method, extra query, trailing slash)}; body length in {0, 1, L-1, L, L+1, L+4096, 2L, L +/- 64, random} for L = 100 KiB and, on the exempt pairs, {L'-1, L', L'+1} for L' = 100 MiB (about 1% of the cases in the quick tier); declared by Content-Length or undeclared (chunked: one single chunk, generated chunk sizes, one chunk of L or L+1). In 35% of the cases a small request (exempt upload, GET or ordinary POST) is sent and answered first on the same keep-alive connection, so that the limit class of the connection's first request differs from that of the request under test. The client writes the body from a second thread while the first waits for the response, so an early refusal is seen. oracle: limit_ref(method, target) from the statement; length > limit => status 4xx and zero body bytes relayed (no request recorded at the mock); length <= limit => exactly one request at the mock whose de-framed body has the same length and content, status 200. non-trivial: length within +/- 1 of a limit, or chunked above the limit; distinct by hash of the case.";
+pub const RULE: &str = "generator: authorised attributed requests to IMDS; method/URL class in {non-exempt, PUT /vmAgentLog and POST /machine/?comp=telemetrydata in random letter case, near misses of the exemption (wrong method, extra query, trailing slash)}; body length in {0, 1, L-1, L, L+1, L+4096, 2L, L +/- 64, random} for L = 100 KiB and, on the exempt pairs, {L'-1, L', L'+1} for L' = 100 MiB (about 1% of the cases in the quick tier); declared by Content-Length or undeclared (chunked: one single chunk, generated chunk sizes, one chunk of L or L+1; a fifth of the chunked requests ALSO carry a Content-Length line - 0, 5, L-1, L or random - before or after the Transfer-Encoding line: within the limit they may be relayed intact or refused, above it they are refused and never relayed). In 35% of the cases a small request (exempt upload, GET or ordinary POST) is sent and answered first on the same keep-alive connection, so that the limit class of the connection's first request differs from that of the request under test. The client writes the body from a second thread while the first waits for the response, so an early refusal is seen. oracle: limit_ref(method, target) from the statement; length > limit => status 4xx and zero body bytes relayed (no request recorded at the mock); length <= limit => exactly one request at the mock whose de-framed body has the same length and content, status 200. non-trivial: length within +/- 1 of a limit, or chunked above the limit; distinct by hash of the case.";
 
 pub fn body_bytes(len: usize, pattern: u8) -> Vec<u8> {
     let mut v = vec![0u8; len];
@@ -112,7 +117,13 @@ pub fn eval(rig: &Rig, case: &Case, stats: &mut Stats) -> Outcome {
     let mut head_h: Vec<(String, Vec<u8>)> = vec![("Host".into(), b"169.254.169.254".to_vec()), ("Metadata".into(), b"true".to_vec())];
     let framed: Vec<u8> = match &case.chunked {
         Some(sizes) => {
+            if let Some((n, true)) = case.also_declared {
+                head_h.push(("Content-Length".into(), n.to_string().into_bytes()));
+            }
             head_h.push(("Transfer-Encoding".into(), b"chunked".to_vec()));
+            if let Some((n, false)) = case.also_declared {
+                head_h.push(("Content-Length".into(), n.to_string().into_bytes()));
+            }
             crate::rawhttp::encode_chunked(&body, sizes)
         }
         None => {
@@ -124,6 +135,10 @@ pub fn eval(rig: &Rig, case: &Case, stats: &mut Stats) -> Outcome {
 
     stats.class(if limit == HIGH { "class:exempt-100MiB-limit" } else { "class:100KiB-limit" });
     stats.class(if case.chunked.is_some() { "framing:chunked" } else { "framing:content-length" });
+    let both_framings = case.chunked.is_some() && case.also_declared.is_some();
+    if both_framings {
+        stats.class(if over { "framing:chunked-plus-a-declared-length(over-limit)" } else { "framing:chunked-plus-a-declared-length(within-limit)" });
+    }
     stats.class(if over { "length:over-limit" } else { "length:within-limit" });
     let near = (case.len as i64 - limit as i64).abs() <= 1;
     if near {
@@ -200,6 +215,12 @@ pub fn eval(rig: &Rig, case: &Case, stats: &mut Stats) -> Outcome {
         }
         if up > 0 || !recorded.is_empty() {
             return Outcome::fail("limit:oversized-body-relayed", format!("{} bytes reached the host for {} {} with {} bytes (limit {})", up, case.method, case.target, case.len, limit));
+        }
+    } else if both_framings && (400..500).contains(&status) {
+        // a request with both framing headers may be refused as malformed whatever its size (RFC 9112 6.1); then nothing of it is relayed
+        stats.underspec();
+        if up > 0 || !recorded.is_empty() {
+            return Outcome::fail("limit:refused-request-relayed", format!("{} bytes reached the host for a refused {} {} (status {})", up, case.method, case.target, status));
         }
     } else {
         if status != 200 {
